@@ -53,6 +53,10 @@ def defect_class(r):
     return None
 
 
+def defect_class_case(c):
+    return SIG_C if any(tl.node_meta(n) == "MOpaque" for n in c["nodes"]) else None
+
+
 def signatures(r, probs):
     """-> set of signatures for the problems of one run"""
     cls = defect_class(r)
@@ -72,6 +76,7 @@ def run(ck):
     stats = {}
     corpus = tl.load_corpus("C06")
     cases = list(corpus) + tl.failure_cases(rng, 40 if thorough else 24, stats, maxlen=6 if thorough else 5)
+    cases += tl.unusual_string_cases(rng, 32 if thorough else 16)
     combos = [(d, m) for d in tl.DETAILS for m in tl.MODES]
     texts, kept = [], []
     counts = collections.Counter()
@@ -96,10 +101,32 @@ def run(ck):
                 if s not in reported or len(c["nodes"]) < len(reported[s][0]["nodes"]):
                     reported[s] = (c, r, probs)
             try:
+                if c.get("direct_only"):
+                    raise pg.Unsupported("direct oracle only: " + str(c.get("kind")).split(":")[0])
                 texts.append(tl.case_coq(c["nodes"], c["data0"], c["ctx0"], r))
                 kept.append((c, r))
             except pg.Unsupported as u:
                 counts["not-in-model:" + str(u)[:40]] += 1
+    # launch-style sequences: one driver + one Pipeline object, several runs carrying a launch's TraceContext
+    launch_seq = 0
+    picks = [c for c in cases if not c.get("direct_only")]
+    picks = picks[:: max(1, len(picks) // (24 if thorough else 8))]
+    for i, c in enumerate(picks):
+        detail, mode = tl.DETAILS[i % len(tl.DETAILS)], tl.MODES[(i // 2) % 2]
+        try:
+            rs, lp = tl.launch_style_runs(c["nodes"], c["data0"], c["ctx0"], detail, mode)
+        except pg.Unsupported:
+            continue
+        launch_seq += 1
+        runs += len(rs)
+        if lp and not (defect_class_case(c) and all(any(e in p for e in EXPECTED[defect_class_case(c)]) for p in lp)):
+            s = "C06:launch-style-runs:%s:%s" % (mode, sorted(set(p.split(": ", 1)[-1].split(" ")[0] if p.startswith("run ") else "file-mix" for p in lp))[0])
+            if s not in reported:
+                counts["finding:" + s] += 1
+                ck.fail_input(s, "runs of one launch (one driver, one Pipeline, TraceContext in the run metadata): %s" % "; ".join(lp[:6]),
+                              dict(tl.replay_obj(c, rs[0]), kind="launch-style", mode=mode, detail=detail, problems=lp[:10]))
+                reported[s] = None
+    counts["launch_style_sequences"] = launch_seq
     bad, errs = tl.evaluate("C06", texts)
     for k, rc, out in errs:
         ck.corr_problem("correspondence shard %d did not evaluate (rc=%s)" % (k, rc), out)
@@ -107,7 +134,7 @@ def run(ck):
         c, r = kept[b]
         ck.corr_problem("traced executor model and implementation disagree (%s, outcome %s)" % (c.get("kind"), r.outcome[0]),
                         json.dumps(tl.replay_obj(c, r), default=str)[:1500], case=tl.replay_obj(c, r))
-    for s, (c, r, probs) in sorted(reported.items()):
+    for s, (c, r, probs) in sorted((k, v) for k, v in reported.items() if v is not None):
         ck.fail_input(s, "traced run violates the trace contract: %s" % ", ".join(probs), tl.replay_obj(c, r, problems=probs))
     # generated facts that are false must be witnessed on the real code by the stored input
     need = {SIG_A: not facts.get("instantiate_inside_try", False),
@@ -136,6 +163,11 @@ def run(ck):
 def replay(obj):
     r = obj["replay"]
     c = {"nodes": r["descriptors"], "data0": r["data0"], "ctx0": r["ctx0"], "kind": r.get("kind")}
+    if r.get("kind") == "launch-style":
+        rs, lp = tl.launch_style_runs(c["nodes"], c["data0"], c["ctx0"], r.get("detail", "hash"), r.get("mode", "directory"))
+        print("nodes:", json.dumps(r["nodes"]))
+        print("problems now:", lp, "| recorded:", r.get("problems"))
+        return 1 if lp else 0
     po, pe, _ = tl.run_plain(c["nodes"], c["data0"], c["ctx0"])
     t = tl.run_traced(c["nodes"], c["data0"], c["ctx0"], detail=r.get("detail", "hash"), mode=r.get("mode", "file"))
     t.case = c
